@@ -373,7 +373,7 @@ def cases(tier, seed):
             for idx in range(0, len(seqs), block):
                 out.append(dict(id='seq-%s-%s-%d' % (role, state, idx), kind='seqs', role=role, state=state,
                                 seqs=[list(item) for item in seqs[idx:idx + block]]))
-    for idx in range(300 if thorough else 24):
+    for idx in range(1500 if thorough else 24):
         out.append(dict(id='rand-%d' % idx, kind='rand', seed=seed * 7477 + idx, count=25))
     return out
 
